@@ -11,10 +11,18 @@ M(key, v) == [key |-> key, v |-> v]
 Arr(es) == [k |-> "arr", es |-> es]
 
 OldTypegen == O(<<M("projectPath", A("s1")), M("outputPath", A("s2")), M("customKey", A("n1"))>>)
+\* a complete earlier entry, as an earlier `init` with every option set leaves it behind: writing settings that
+\* leave an option unset over it must not resurrect the old value when the document is read back
+OldTypegenFull == O(<<M("projectPath", A("s1")), M("outputPath", A("s2")), M("validationLibrary", A("s4")),
+                      M("verbose", A("b1")), M("visualizeDeps", A("b2")), M("force", A("b1")),
+                      M("typeMappings", O(<<M("OldType", A("s7")), M("Other<Old>", A("s5"))>>)),
+                      M("excludePatterns", Arr(<<A("s3"), A("s6")>>)),
+                      M("includePatterns", Arr(<<A("s5")>>)),
+                      M("defaultParameterCase", A("s6")), M("customKey", A("n1"))>>)
 OtherPlugin == O(<<M("open", A("b1")), M("scope", Arr(<<A("s3"), O(<<M("allow", A("b2"))>>)>>))>>)
 
 PluginsVariants ==
-    { "absent", "empty", "other", "typegen", "both" }
+    { "absent", "empty", "other", "typegen", "both", "typegen_full", "both_full" }
     \* ("notobject": plugins present but not a JSON object is outside the property's quantifier --
     \*  the settings are then silently not written; kept out of the verdict, see DESIGN.md)
 
@@ -23,6 +31,8 @@ Plugins(v) ==
       [] v = "other"   -> O(<<M("shell", OtherPlugin)>>)
       [] v = "typegen" -> O(<<M("typegen", OldTypegen)>>)
       [] v = "both"    -> O(<<M("shell", OtherPlugin), M("typegen", OldTypegen), M("zzz", A("u1"))>>)
+      [] v = "typegen_full" -> O(<<M("typegen", OldTypegenFull)>>)
+      [] v = "both_full"    -> O(<<M("aaa", A("u1")), M("typegen", OldTypegenFull), M("shell", OtherPlugin)>>)
       [] v = "notobject" -> A("s4")
 
 Optional == {"product", "build", "app", "ukey"}
